@@ -222,7 +222,8 @@ Section WithEnv.
                               (filter (fun q => negb (fst q =? id)) (rv_fdt_receivers r))
                               (f2 :: rv_fdt_current r) (rv_closed r) in
             match fr_inst f2 with
-            | None => (POk, r1, c0)
+            | None => (POk, mk_recv (rv_objects r1) (rv_completed r1) (rv_error r1) (rv_fdt_receivers r1)
+                                    (firstn 10 (rv_fdt_current r1)) (rv_closed r1), c0)
             | Some i =>
               let '(r2, c2, attached) := attach_all id i (map fst (rv_objects r1)) r1 c0 [] in
               let (r3, c3) := check_all attached r2 c2 in
@@ -307,7 +308,7 @@ Section WithEnv.
   Inductive rev :=
   | RvPush (p : apkt) (now : Z)
   | RvUnparsable                      (* parse_alc_pkt failed or TSI differs: no effect *)
-  | RvCleanup (now : Z) (expired : list N)
+  | RvCleanup (now : Z) (expired : list N) (expired_fdt : list N)  (* wall-clock time-outs: objects, unfinished FDT instances *)
   | RvDrop.
 
   Definition recv_step (r : recv) (e : rev) (c : ctx) : pres * recv * ctx :=
@@ -318,13 +319,18 @@ Section WithEnv.
                 then mk_recv (rv_objects r) (rv_completed r) (rv_error r) (rv_fdt_receivers r) (rv_fdt_current r) true
                 else r in
       if a_toi p =? 0 then push_fdt_obj p now r0 c else push_obj p now r0 c
-    | RvCleanup now expired =>
+    | RvCleanup now expired expired_fdt =>
       let step (acc : recv * ctx) (toi : N) : recv * ctx :=
         let (r1, c1) := acc in
         remove_obj toi (mk_recv (rv_objects r1) (rv_completed r1) (filter (fun t => negb (t =? toi)) (rv_error r1))
                                 (rv_fdt_receivers r1) (rv_fdt_current r1) (rv_closed r1)) c1 in
+      (* only objects still in the map can time out *)
+      let expired := filter (fun t => existsb (fun q => fst q =? t) (rv_objects r)) expired in
       let (r1, c1) := fold_left step expired (r, c) in
-      let frs := filter (fun q => match fr_state (snd q) with FComplete | FReceiving => true | _ => false end)
+      let frs := filter (fun q => match fr_state (snd q) with
+                                  | FComplete => true
+                                  | FReceiving => negb (existsb (N.eqb (fst q)) expired_fdt)
+                                  | _ => false end)
                         (map (fun q => (fst q, fr_update_expired (snd q) now)) (rv_fdt_receivers r1)) in
       (POk, mk_recv (rv_objects r1) (rv_completed r1) (rv_error r1) frs (rv_fdt_current r1) (rv_closed r1), c1)
     | RvDrop =>
